@@ -1,9 +1,56 @@
 import PersimVerif.Drv.Util
-/-! driver commands: Landscape (stub until the model lands) -/
+import PersimVerif.Model.Landscape
+/-!
+  driver commands for C03 (model at `Rat`):
+
+  * `pl.exact <hom_deg> <dgms>`        → `[critical pairs per depth, #shortcut firings]` or `err:<Kind>`
+                                         (`dgms` = list of diagrams, a death may be `inf`)
+  * `pl.noshortcut <bars>`             → critical pairs of the sweep without the repeated-bar shortcut
+  * `pl.certify <eps> <bars> <cps>`    → `[T]`, or `[F,kind,k,t,candidate,definition]` (see `Landscape.witness`)
+  * `pl.lambda <bars> <k> <t>`         → the definition `λ_k(t)` (k-th largest tent, `k = 0` outermost)
+  * `pl.eval <cps> <k> <t>`            → `evalDepth cps k t`
+-/
 namespace PersimVerif.Drv.Landscape
-open PersimVerif Val PersimVerif.Drv
+open PersimVerif Val PersimVerif.Drv PersimVerif.Landscape
+
+def optPoint? : Val → Option (Rat × Option Rat)
+  | .list [a, b] => do pure (← asRat? a, ← optRat? b)
+  | _ => none
+
+def ofCps (cps : List (List (Rat × Rat))) : Val := .list (cps.map ofRatPairs)
+
+def errName : Err → String
+  | .valueError => "ValueError"
+  | .indexError => "IndexError"
+  | .nonFinite => "NonFinite"
+  | .fuel => "Fuel"
 
 def handle : Handler
+  | "pl.exact", [h, d] => do
+    let hd ← asInt? h
+    let dgms ← listOf? (listOf? optPoint?) d
+    match exact dgms hd with
+    | .ok o => pure (.list [ofCps o.cps, Val.ofNat o.fired])
+    | .error e => pure (err (errName e))
+  | "pl.noshortcut", [b] => do
+    let bars ← ratDgm? b
+    match sweepNoShortcut bars with
+    | some L => pure (ofCps L)
+    | none => pure (err "Fuel")
+  | "pl.certify", [e, b, c] => do
+    let eps ← asRat? e
+    let bars ← ratDgm? b
+    let cps ← listOf? ratDgm? c
+    if certifyTol eps bars cps then pure (.list [ofBool true])
+    else match witness eps bars cps with
+      | some (kind, k, t, a, s) => pure (.list [ofBool false, Val.ofNat kind, Val.ofNat k, .num t, .num a, .num s])
+      | none => pure (.list [ofBool false, Val.ofNat 3, Val.ofNat 0, .num 0, .num 0, .num 0])
+  | "pl.lambda", [b, k, t] => do
+    let bars ← ratDgm? b
+    pure (.num (PL.landscape bars (← asNat? k) (← asRat? t)))
+  | "pl.eval", [c, k, t] => do
+    let cps ← listOf? ratDgm? c
+    pure (.num (PL.evalDepth cps (← asNat? k) (← asRat? t)))
   | _, _ => none
 
 end PersimVerif.Drv.Landscape
